@@ -270,6 +270,10 @@ def run(prog, rep):
     rep.attempt(comment_carry, ct, rep)
     rep.attempt(setter_delegation, ct, rep)
     rep.attempt(dispatch_exhaustive, ct, rep)
+    # 'reading it returns content equal to what was stored' also through the convenience accessors: getter, predicate and setter of
+    # each group name the same block type (C11's sibling rule)
+    from .c11 import accessor_agreement
+    rep.attempt(accessor_agreement, ct, rep)
     rep.attempt(M.get_block_reads_disk, ct, rep)
     # a block added after a removal must not land on another block's bytes: the free slots point at end of data
     rep.attempt(M.offset_provenance, ct, rep)
